@@ -160,6 +160,12 @@ func runShutChild(cfg runCfg, emit func(Case)) error {
 		if point == "expiry.fire" && !atomic.CompareAndSwapInt32(&manualTimer, 1, 0) {
 			select {} // a firing of the real timer
 		}
+		if point == "expiry.window" && len(args) > 1 {
+			// the sweep passes here once per collection: park it in the collection that has something to expire
+			if keys, ok := args[1].([]string); ok && len(keys) == 0 {
+				return
+			}
+		}
 		if point == in.Point && atomic.CompareAndSwapInt32(&armed, 1, 0) {
 			arrived <- struct{}{}
 			<-release
